@@ -54,6 +54,13 @@ def check(c):
             for a_, b_ in ((10, 12), (12, 15), (len(Q) - 3, len(Q))):
                 if not close(EST.output(est, method, Q[a_:b_]), full[a_:b_]):
                     return dict(**{"class": "sub-batch-unseen-only"}, what="rows %d..%d alone give other outputs than inside the batch" % (a_, b_))
+        # the same array OBJECT whose content changed between two calls (buffers are reused): outputs follow the content
+        buf = Q.copy()
+        if not close(EST.output(est, method, buf), full):
+            return dict(**{"class": "repeated-call"}, what="a copy of the batch gives other outputs")
+        buf[:] = Q[perm]
+        if not close(EST.output(est, method, buf), full[perm]):
+            return dict(**{"class": "same-array-new-content"}, what="a second call on the same array object, refilled in place, does not follow the new content")
         for r in list(range(0, len(Q), 4)) + [len(Q) - 1]:
             one = EST.output(est, method, Q[r:r + 1])
             if not close(one[0], full[r]):
